@@ -15,13 +15,17 @@ pub mod syscalls {
 }
 use syscalls::Error as SyscallError;
 //@item src/error.rs :: enum ErrorKind | sub.ErrorKind
+/// A7 (std): `Box::from(t)` boxes exactly `t` (used by `self.into()` in `with_wrap`)
+pub assume_specification<T>[<Box<T> as core::convert::From<T>>::from](t: T) -> (r: Box<T>) ensures *r == t;
 impl ErrorImpl {
 //@prove error.ErrorImpl.kind
 //@prove error.ErrorImpl.is_safety_violation
+//@prove error.ErrorImpl.with_wrap
 }
 impl Error {
 //@prove error.Error.kind
 //@prove error.Error.is_safety_violation
+//@prove error.Error.with_wrap
 }
 impl ErrorKind {
 //@prove error.ErrorKind.errno
